@@ -4,6 +4,7 @@ call passes overlapping memory as a written array and as another, differently in
 (c) the spreading kernels are serial (no numba `parallel`, no `prange`)."""
 import inspect
 import itertools
+import warnings
 
 import numpy as np
 import sympy as sp
@@ -114,7 +115,69 @@ def run(seed=0, tier="quick", aimed=None):
         if "prange" in src or "parallel=True" in src.replace(" ", ""):
             return {"ok": False, "cases": cases, "samples": samples, "failing_input": {
                 "oracle": "spreading_serial", "module": cls.__module__, "what": "prange / parallel=True present"}}
-    return {"ok": True, "cases": cases, "failing_input": None, "samples": samples}
+    # ---- (d) thread sweep of the Poisson solvers on the real implementation (run LAST: a listed known finding must not
+    #          mask another violation).  The stencil kernels are executed here by a numpy interpreter (no OpenMP back end in this
+    #          sandbox), so the only threaded component is pyFFTW; a difference is attributed to its call site by comparing the
+    #          buffers right after each plan call.
+    import sopht.numeric.eulerian_grid_ops as spne
+
+    r = impl.rng(seed, "c15threads")
+    shapes2 = [(16, 16), (24, 20), (20, 24), (33, 47), (32, 48)] + ([(64, 64), (40, 56), (48, 30)] if tier != "quick" else [])
+    shapes3 = [(8, 8, 8), (12, 10, 9)] + ([(16, 16, 16), (10, 14, 12)] if tier != "quick" else [])
+    threads = (2, 4) if tier == "quick" else (2, 3, 4, 7, 8)
+    sweep = {"solves": 0, "bitwise_different": 0}
+    first_diff = None
+    for dim, shapes in ((2, shapes2), (3, shapes3)):
+        for shape in shapes:
+            rhs = r.normal(size=shape)
+            ref = None
+            for nt in (1,) + threads:
+                with warnings.catch_warnings():
+                    warnings.simplefilter("ignore")
+                    if dim == 2:
+                        ps = spne.UnboundedPoissonSolverPYFFTW2D(grid_size_y=shape[0], grid_size_x=shape[1], x_range=1.0, real_t=np.float64, num_threads=nt)
+                    else:
+                        ps = spne.UnboundedPoissonSolverPYFFTW3D(grid_size_z=shape[0], grid_size_y=shape[1], grid_size_x=shape[2], x_range=1.0, real_t=np.float64, num_threads=nt)
+                snaps = {}
+                o_rfft, o_irfft = ps.rfft, ps.irfft
+
+                def rfft(*a, _o=o_rfft, _ps=ps, _s=snaps, **kw):
+                    _s["pre_rfft"] = _ps.domain_doubled_buffer.copy(); out = _o(*a, **kw); _s["post_rfft"] = _ps.domain_doubled_fourier_buffer.copy(); return out
+
+                def irfft(*a, _o=o_irfft, _ps=ps, _s=snaps, **kw):
+                    _s["pre_irfft"] = _ps.convolution_buffer.copy(); out = _o(*a, **kw); _s["post_irfft"] = _ps.domain_doubled_buffer.copy(); return out
+
+                ps.rfft, ps.irfft = rfft, irfft
+                sol = np.zeros(shape)
+                ps.solve(solution_field=sol, rhs_field=rhs.copy())
+                sweep["solves"] += 1
+                cases += 1
+                if ref is None:
+                    ref = (sol, snaps)
+                    continue
+                if np.array_equal(sol, ref[0]):
+                    continue
+                sweep["bitwise_different"] += 1
+                if not np.array_equal(snaps["pre_rfft"], ref[1]["pre_rfft"]):
+                    site = "kernel_before_rfft"
+                elif not np.array_equal(snaps["post_rfft"], ref[1]["post_rfft"]):
+                    site = "pyfftw_plan"
+                elif not np.array_equal(snaps["pre_irfft"], ref[1]["pre_irfft"]):
+                    site = "kernel_between_ffts"
+                elif not np.array_equal(snaps["post_irfft"], ref[1]["post_irfft"]):
+                    site = "pyfftw_plan"
+                else:
+                    site = "kernel_after_irfft"
+                fi = {"oracle": "c15_thread_sweep", "call_site": site, "solver": f"UnboundedPoissonSolverPYFFTW{dim}D", "grid": list(shape),
+                      "threads": [1, nt], "max_abs_dev": float(np.max(np.abs(sol - ref[0]))),
+                      "what": f"solve differs bitwise between num_threads=1 and {nt}; first differing buffer right after: {site}"}
+                if site != "pyfftw_plan":
+                    return {"ok": False, "cases": cases, "samples": samples, "failing_input": fi, "thread_sweep": sweep}
+                first_diff = first_diff or fi
+    samples.append({"oracle": "c15_thread_sweep", **sweep})
+    if first_diff is not None:
+        return {"ok": False, "cases": cases, "samples": samples, "failing_input": first_diff, "thread_sweep": sweep}
+    return {"ok": True, "cases": cases, "failing_input": None, "samples": samples, "thread_sweep": sweep}
 
 
 def replay(fi):
